@@ -12,7 +12,7 @@
 //	propose <id> <type:stage:amount,...>        CRCProposal (Normal), real context check
 //	review <id> <member> <a|r>                  environment: CRCProposalReview processed
 //	rejvotes <id> <amount>                      environment: public reject votes on the proposal
-//	track <id> <p|t|f> <stage>                  CRCProposalTracking Progress/Terminated/Finalized, real check
+//	track <id> <p|t|f|c|r> <stage>              CRCProposalTracking Progress/Terminated/Finalized/Common/Rejected, real check
 //	withdraw <id> <amount>                      CRCProposalWithdraw (payload v1), real check
 //	end [order]                                 Committee.ProcessBlock; prints committee + every proposal; order = processing
 //	                                            order of the queued txs after the node's SortTransactions (oracle value)
@@ -393,7 +393,11 @@ func exec(t []string) string {
 		if !ok {
 			return "reject noprop"
 		}
-		tt := map[string]payload.CRCProposalTrackingType{"p": payload.Progress, "t": payload.Terminated, "f": payload.Finalized}[t[2]]
+		tt, okk := map[string]payload.CRCProposalTrackingType{"p": payload.Progress, "t": payload.Terminated, "f": payload.Finalized,
+			"c": payload.Common, "r": payload.Rejected}[t[2]]
+		if !okk {
+			panic("harness: unknown tracking kind " + t[2])
+		}
 		msg := []byte(fmt.Sprintf("msg-%d", w.nonce))
 		op := []byte("opinion")
 		pl := &payload.CRCProposalTracking{
